@@ -63,7 +63,7 @@ var clauseKinds = map[string]bool{
 	"import": true, "maypanic": true, "opaque": true, "holds": true, "locked": true,
 	"reads": true, "fresh": true, "atcall": true, "unreachable": true, "emits": true,
 	"returns": true, "use": true, "axiom": true, "induction": true, "params": true,
-	"terminates": true, "field": true, "sig": true, "group": true, "noalloc": true, "deadcode": true, "replay": true, "witness": true, "lockset": true, "rely": true, "relocks": true, "ghostvar": true, "ghostinit": true, "waive": true, "assertcall": true, "lockkey": true, "noreturn": true, "effect": true, "noframe": true,
+	"terminates": true, "field": true, "sig": true, "group": true, "noalloc": true, "deadcode": true, "replay": true, "witness": true, "lockset": true, "rely": true, "relocks": true, "ghostvar": true, "ghostinit": true, "waive": true, "assertcall": true, "lockkey": true, "noreturn": true, "effect": true, "noframe": true, "instconsts": true, "opaquefn": true, "onlyfor": true,
 }
 
 var blockKinds = map[string]bool{"func": true, "spec": true, "monitor": true, "extern": true, "lemma": true, "type": true, "actor": true}
@@ -113,6 +113,20 @@ func ParseContractText(text, path, pkg string, extern bool) ([]*Block, error) {
 			// functions are not unfolded (uninterpreted symbols): facts about them
 			// come only from contracts proved where the definition is visible
 			blocks = append(blocks, &Block{Kind: "opaque", Pkg: pkg, Header: rest, Loops: map[int]*LoopSpec{}, Flags: map[string]string{}, File: path, Line: i + 1, Extern: extern})
+			cur = nil
+			last = nil
+			continue
+		}
+		if word == "ghostcode" || word == "ghostimport" {
+			// "ghostcode <one line of Go>": ghost (proof-only) code of this package,
+			// compiled only into the verifier's in-memory overlay: lemma functions
+			// whose bodies call the functions under contract and whose own contract
+			// is the lemma. "ghostimport "path"": an import that code needs.
+			raw := strings.TrimPrefix(strings.TrimSpace(t[3:]), word)
+			if word == "ghostcode" && len(raw) > 0 {
+				raw = raw[1:] // keep indentation after the single separating blank
+			}
+			blocks = append(blocks, &Block{Kind: word, Pkg: pkg, Header: strings.TrimRight(raw, " \t"), Loops: map[int]*LoopSpec{}, Flags: map[string]string{}, File: path, Line: i + 1, Extern: extern})
 			cur = nil
 			last = nil
 			continue
